@@ -171,8 +171,13 @@ func version(v6 bool) string {
 func report(c *fw.Ctx, in Input, order int64, hist, pat, clause string, s0, s1 string, over []byte, extra string) {
 	path, av, bv, n := snap.Diff(s0, s1)
 	obs := snap.Observer(path)
+	if extra != "" { // the second encoding itself differs: the observer is the encoder
+		obs = version(in.V6) + ".ToBytes"
+	}
 	if obs == "" {
 		obs = version(in.V6)
+	} else if !strings.Contains(obs, ".") {
+		obs = version(in.V6) + "." + obs
 	}
 	short := func(s string) string {
 		if len(s) > 300 {
